@@ -4,7 +4,11 @@
 //! network (net.rs), disk (disk.rs), state machine (sm.rs) and a paused tokio clock.
 pub mod disk;
 pub mod history;
+pub mod sgen;
+pub mod memmon;
+pub mod monitors;
 pub mod net;
+pub mod scenario;
 pub mod sm;
 
 use std::collections::BTreeMap;
@@ -124,6 +128,13 @@ pub fn make_config(id: u32, initial_cluster: Vec<NodeMeta>, k: &NodeKnobs, root:
     c.raft.learner_catchup_threshold = k.learner_catchup_threshold;
     c.raft.learner_check_throttle_ms = 10;
     c.raft.metrics.enable_backpressure = false;
+    // d-engine's defaults keep a whole vote round (3 x 100 ms + back-off = 450 ms) below the default
+    // election_timeout_min (500 ms); keep the same proportion for the generated election windows, otherwise a
+    // candidate's blocking vote round outlasts its own election timer and BecomeLeader is starved forever.
+    c.retry.election.timeout_ms = (k.election_min_ms / 5).max(5);
+    c.retry.election.base_delay_ms = (k.election_min_ms / 10).max(2);
+    c.retry.election.max_delay_ms = (k.election_min_ms / 5).max(5);
+    c.retry.election.max_retries = 3;
     c
 }
 
@@ -165,6 +176,24 @@ pub struct World {
     pub clock_base: tokio::time::Instant,
     pub nodes: BTreeMap<u32, RunningNode>,
     pub stopped: BTreeMap<u32, (Persistent, u32)>,
+    /// committed-sequence oracle: filled from leaders' logs when their commit index advances
+    pub commit_observer: Option<Arc<Mutex<scenario::CommittedSeq>>>,
+    /// where each node's log can be inspected right now (live log, or the disk of a stopped node)
+    pub log_views: Arc<Mutex<BTreeMap<u32, LogView>>>,
+}
+
+#[derive(Clone)]
+pub enum LogView {
+    Live(Arc<BufferedRaftLog<SimT>>),
+    Stopped(SimDisk),
+}
+impl LogView {
+    pub fn entry(&self, i: u64) -> Option<d_engine_proto::common::Entry> {
+        match self {
+            LogView::Live(l) => l.entry(i).ok().flatten(),
+            LogView::Stopped(d) => d.cache_log().entries.get(&i).cloned(),
+        }
+    }
 }
 
 impl World {
@@ -315,9 +344,57 @@ impl World {
         {
             let hist = self.history.clone();
             let base = self.clock_base;
+            let observer = self.commit_observer.clone();
+            let log_for_obs = raft_log.clone();
+            let views = self.log_views.clone();
+            let membership_for_obs = membership.clone();
             aux.push(tokio::spawn(async move {
+                let mut last_idx = 0u64;
                 while let Some(c) = obs_commit_rx.recv().await {
                     let t = base.elapsed().as_millis() as u64;
+                    if c.role == NodeRole::Leader as i32 {
+                        // C09 observation: who holds the entry the leader just committed?
+                        if let Ok(Some(e)) = log_for_obs.entry(c.new_commit_index) {
+                            use d_engine_core::Membership;
+                            let mut voters: Vec<u32> = membership_for_obs.voters().await.iter().map(|m| m.id).collect();
+                            voters.push(id);
+                            voters.sort();
+                            voters.dedup();
+                            let p = scenario::payload_bytes(&e);
+                            let mut holders = vec![];
+                            {
+                                let v = views.lock().unwrap();
+                                for vid in &voters {
+                                    if *vid == id {
+                                        holders.push(*vid);
+                                        continue;
+                                    }
+                                    if let Some(view) = v.get(vid) {
+                                        if let Some(pe) = view.entry(c.new_commit_index) {
+                                            if pe.term == e.term && scenario::payload_bytes(&pe) == p {
+                                                holders.push(*vid);
+                                            }
+                                        }
+                                    }
+                                }
+                            }
+                            hist.lock().unwrap().push(
+                                t,
+                                Ev::CommitQuorum {
+                                    node: id,
+                                    index: c.new_commit_index,
+                                    leader_term: c.current_term,
+                                    entry_term: e.term,
+                                    holders,
+                                    voters,
+                                    // a membership entry in the newly committed range changes the voter set as soon as
+                                    // it is applied; which set was in force when the index moved cannot be observed here
+                                    config_in_range: ((last_idx + 1)..=c.new_commit_index)
+                                        .any(|i| log_for_obs.entry(i).ok().flatten().and_then(|x| x.payload).map(|p| p.is_config()).unwrap_or(false)),
+                                },
+                            );
+                        }
+                    }
                     hist.lock().unwrap().push(
                         t,
                         Ev::Commit {
@@ -327,6 +404,37 @@ impl World {
                             term: c.current_term,
                         },
                     );
+                    if c.role == NodeRole::Leader as i32 {
+                        if let Some(obs) = &observer {
+                            let mut g = obs.lock().unwrap();
+                            let lo = last_idx + 1;
+                            for i in lo..=c.new_commit_index {
+                                if let Ok(Some(e)) = log_for_obs.entry(i) {
+                                    let p = scenario::payload_bytes(&e);
+                                    match g.entries.get(&i) {
+                                        None => {
+                                            g.entries.insert(i, (e.term, p));
+                                            g.commit_term.insert(i, c.current_term);
+                                            g.commit_time.insert(i, t);
+                                        }
+                                        Some((t0, p0)) => {
+                                            if *t0 != e.term || *p0 != p {
+                                                let msg = format!(
+                                                    "t={t}ms leader {id} (term {}) committed index {i} with term {} but index {i} was committed earlier with term {t0} (payload equal={})",
+                                                    c.current_term,
+                                                    e.term,
+                                                    *p0 == p
+                                                );
+                                                g.conflicts.push(msg);
+                                            }
+                                        }
+                                    }
+                                }
+                            }
+                            g.max_index = g.max_index.max(c.new_commit_index);
+                            last_idx = last_idx.max(c.new_commit_index);
+                        }
+                    }
                 }
             }));
             let hist = self.history.clone();
@@ -358,6 +466,7 @@ impl World {
             },
         );
 
+        self.log_views.lock().unwrap().insert(id, LogView::Live(raft_log.clone()));
         let raft_exit = Arc::new(Mutex::new(None));
         let raft_exit2 = raft_exit.clone();
         let is_learner = node_config_arc.is_learner();
@@ -435,6 +544,7 @@ impl World {
         drop(n.raft_log);
         drop(n.smh);
         drop(n.sm);
+        self.log_views.lock().unwrap().insert(id, LogView::Stopped(next.disk.clone()));
         self.stopped.insert(id, (next, n.incarnation));
     }
 
@@ -467,6 +577,7 @@ impl World {
         );
         let persistent = n.persistent.clone();
         drop(n.raft_log);
+        self.log_views.lock().unwrap().insert(id, LogView::Stopped(persistent.disk.clone()));
         self.stopped.insert(id, (persistent, n.incarnation));
     }
 
@@ -513,6 +624,8 @@ impl Sim {
                 clock_base,
                 nodes: BTreeMap::new(),
                 stopped: BTreeMap::new(),
+                commit_observer: None,
+                log_views: Arc::new(Mutex::new(BTreeMap::new())),
             };
             f(world).await
         });
